@@ -129,6 +129,7 @@ ShouldAcceptReq(g, env, t) ==
   /\ (IsBatchDst(env, t) \/ t.idx = Get(g.acc, <<t.src, t.dst>>, 0) + 1)
   /\ (t.gid # "" => (t.id \notin DOMAIN g.kid))
   /\ (XH(t) => ~Seen(g, t.id))     \* between two hubs a known id is only ever a notice
+  /\ (t.gid = "" => t.id \notin DOMAIN g.st)   \* a one-to-one transaction begins once (matters for unordered destinations only)
 
 ShouldAcceptRcpt(g, env, t) ==
   /\ ProofOK(env, t)
